@@ -196,7 +196,7 @@ func calculateChargeSum(charges []*Charge, cur currency.Code) *num.Amount {
 func (m *Charge) round(cur currency.Code) {
 	// Default round to currency, or use base if present
 	e := cur.Def().Subunits
-	if m.Base != nil {
+	if m.Base != nil && m.Base.Exp() > e {
 		e = m.Base.Exp()
 	}
 	m.Amount = m.Amount.RescaleDown(e)
